@@ -13,6 +13,11 @@ PROP = {'drive': ['Otl'], 'modules': ['SfntV.Props.C08'],
                        'C08_st_roundtrip_chainedseqcontext1', 'C08_st_roundtrip_chainedseqcontext3',
                        'C08_ctx_classpart', 'C08_st_roundtrip_seqcontext2', 'C08_st_roundtrip_chainedseqcontext2',
                        'C08_gtab_roundtrip_full', 'C08_gtab_header_v11', 'C08_readlookuplist_sound',
+                       'C08_reader_cov_in_range_coverage', 'C08_reader_cov_in_range_gsub1_2',
+                       'C08_reader_cov_in_range_gsub2_1_3_1', 'C08_reader_cov_in_range_gsub4_1',
+                       'C08_reader_cov_in_range_gsub8_1', 'C08_reader_cov_in_range_gpos1_2',
+                       'C08_reader_cov_in_range_gpos3_1', 'C08_reader_cov_in_range_gpos4_1_6_1',
+                       'C08_reader_cov_in_range_seqcontext1', 'C08_reader_cov_in_range_chainedseqcontext1',
                        'C08_featurelist_roundtrip', 'C08_gdef_roundtrip', 'C08_gtab_roundtrip',
                        'C08_gtab_nil_normal_form', 'C08_scriptlist_roundtrip', 'C08_scriptlist_encode_total',
                        'C08_gtab_scriptlist_roundtrip'],
@@ -53,6 +58,15 @@ PROP = {'drive': ['Otl'], 'modules': ['SfntV.Props.C08'],
              'reader on every accepted byte string (C08_readlookuplist_sound; subtables as positions). Not proved: '
              'that it accepts every encoder output (the 6000-entry budget can refuse a list the encoder wrote; the '
              'lookup-list theorem recovers the structure with the specification reader LL.specRead)',
+             'reader post-condition (the shape C07 assumes): C08_reader_cov_in_range_*: on every accepted byte string '
+             'every coverage index is an index of the array delivered next to it (GSUB 1.2/2.1/3.1/4.1/8.1, GPOS '
+             '1.2/3.1/4.1/6.1 mark+base, SeqContext1, ChainedSeqContext1); evaluated on the real readers by D '
+             'otl.sub.inrange on count/coverage inconsistency families. GPOS 2.1 is a map (no index); the class-based '
+             'and coverage-based context formats have no array indexed by a coverage table',
+             'feature list: the Go reader result is checked against an independent specification reader on every '
+             'accepted byte string generated (D otl.fl.spec: record i carries tag i and the indices of the table at '
+             'its own offset; hand-assembled lists with shared tables, repeated and unsorted tags); model = '
+             'specification is not proved as a theorem',
              'encoder/reader disagreements (loud: the written table is rejected by the library reader): GPOS 4.1/6.1 '
              'base arrays with more than 32764 anchor offsets and GPOS 2.2 with class1Count*class2Count >= 65536 '
              '(all records nil) are now refused by the encoders (repairs 19, 18). Open: SeqContext3 / '
